@@ -29,19 +29,6 @@ func init() {
 	})
 }
 
-// poolNode starts the JSON parser worker pool inside the bubble (on the
-// goroutine that runs the query) and stops it when the query returns.
-type poolNode struct {
-	inner   execution.Node
-	workers int
-}
-
-func (p *poolNode) Run(ctx execution.ExecutionContext, produce execution.ProduceFn, metaSend execution.MetaSendFn) error {
-	jsonds.SimStartParserPool(p.workers)
-	defer jsonds.SimStopParserPool()
-	return p.inner.Run(ctx, produce, metaSend)
-}
-
 func scratchFile(r *Run, ext string) string {
 	return fmt.Sprintf("sim_%s.%s", r.Check, ext)
 }
@@ -177,7 +164,7 @@ func jsonFileScenario(r *Run) {
 		}
 		return t.Draw(len(en))
 	}
-	oc := RunGated(r, &poolNode{node, workers}, ctl, produce, func(execution.ProduceContext, execution.MetadataMessage) error { return nil }, choose, 100000)
+	oc := RunGatedPool(r, node, workers, ctl, produce, func(execution.ProduceContext, execution.MetadataMessage) error { return nil }, choose, 100000)
 	r.Sched(strings.Join(schedule, ","))
 	r.AddEvents(len(got))
 	for k, v := range disk.Fired {
